@@ -75,7 +75,11 @@ def main():
         else:
             shutil.rmtree(f'{wt}/out', ignore_errors=True)
             t0 = time.time()
-            rc, out = sh(f'{wt}/th/release/{group} {cid} --tier {tier}', env={'PALLAS_REPO': wt, 'PV_OUT_DIR': f'{wt}/out', 'VERIF_DIR': '/verif', 'VERIF_SEED': '1'}, timeout=7200)
+            xenv = {'PALLAS_REPO': wt, 'PV_OUT_DIR': f'{wt}/out', 'VERIF_DIR': '/verif', 'VERIF_SEED': '1'}
+            if cid == 'C43':   # ./check builds a second, unoptimised worker for C43
+                sh(f"cargo build --profile opt0 --offline -p {group} --config '{cfg}' 2>&1 | tail -5", cwd='/verif/harness', env={'CARGO_TARGET_DIR': f'{wt}/th'})
+                xenv['PV_C43_OPT0_WORKER'] = f'{wt}/th/opt0/{group}'
+            rc, out = sh(f'{wt}/th/release/{group} {cid} --tier {tier}', env=xenv, timeout=7200)
             sigs = re.findall(r'^\[' + cid + r':([^\]]+)\] (.+?) — ', out, re.M)
             meta['check'] = {'built': True, 'tier': tier, 'exit': rc, 'detected': rc == 1, 'wall_s': round(time.time() - t0, 1),
                              'violations': [{'sub': s, 'signature': g} for s, g in sigs][:8], 'summary': out.strip().splitlines()[-1][:300] if out.strip() else ''}
